@@ -80,7 +80,7 @@ PROPS = {
         "title": "Replacing an import with a built function redirects all its uses",
         "units": ["V6_api", "V2_reindex", "V3_remap"],
         "obligations": ["V6_api.convert_import_fn_to_local.*", "V6_api.fn:Module::convert_import_fn_to_local", "V6_api.delete_func.*", "V6_api.fn:Module::delete_func",
-                        "V6_api.fn:Function::set_kind", "V6_api.fn:Functions::get_mut", "V6_api.ModuleImports.delete.*", "V6_api.fn:ModuleImports::delete"]
+                        "V6_api.fn:Function::set_kind", "V6_api.fn:Functions::get_mut", "V6_api.Functions.get_fid_of_import.*", "V6_api.fn:Functions::get_fid_of_import", "V6_api.fn:lemma_first_defined_by", "V6_api.ModuleImports.delete.*", "V6_api.fn:ModuleImports::delete"]
                        + V2_GENERIC + v2_inst("Function", "Functions") + ["V3_remap.update_fn_instr.*", "V3_remap.fn:update_fn_instr", "V3_remap.refers_to_func.*"],
         "glue": [ENCODE_GLUE, "FunctionBuilder::replace_import_in_module_with_tag (type comparison, construction of the LocalFunction) is not under contract"],
         "design_ref": "DESIGN.md §5 C10",
